@@ -6,6 +6,9 @@ use core::marker::PhantomData;
 use core::mem::{ManuallyDrop, MaybeUninit};
 use core::ops::{Deref, DerefMut};
 use core::ptr::{self, addr_of_mut, NonNull};
+#[cfg(triomphe_verif)]
+use crate::verif_hook::atomic::AtomicUsize;
+#[cfg(not(triomphe_verif))]
 use core::sync::atomic::AtomicUsize;
 
 #[cfg(feature = "serde")]
